@@ -520,6 +520,10 @@ Und kann so benutzt werden:
 		},
 		calls: func(cx *c15Call) []string { return []string{c15Line("(" + cx.fn("f") + " " + cx.val(0, 0) + ")")} }})
 
+	// a body that only earns a warning (the unimplemented statement in a branch that is never taken):
+	// the specialisation compiles with that warning, so must every instantiation
+	add(unary("todo", "Wenn 1 gleich 2 ist, dann:", "\t...", "Gib a zurück."))
+
 	f = add(unary("print", "Schreibe a auf eine Zeile.", "Gib a zurück."))
 	f.applies = func(ts []*c15Ty) bool { return ts[0].printable }
 	f.bad = []string{"Paar"}
